@@ -42,6 +42,26 @@ CHECKS = {
              "all sequential histories. Tie: conflict-biased seeded histories with autocommit probes after every Commit/Rollback.",
         design="7/C03", technique="Coq proof on the abstract machine + refinement transfer + differential correspondence run",
         note="Sequential commits only (concurrent commits are C07). " + NOTE_COMMON),
+    "C05": dict(
+        text="Theorems (Coq): for every sequential history with Close/Open at any positions the faithful model equals the abstract "
+             "machine, whose Reopen keeps every committed value and forgets open transactions (C05_histories_with_reopen, "
+             "via a characterisation of Load: the winner of each key is its newest committed version, proved from an invariant "
+             "on the persisted version records); Load re-establishes all invariants whatever value the process-global counter "
+             "has at Open and the counter may be raised at any time by other instances (C05_open_with_any_counter, "
+             "C05_counter_raised_by_others), so every later write keeps winning. The pinned tree violated this (defect D1, "
+             "machine-checked witness C05_later_writes_win_refuted_orig); repaired by a fix: commit in /repo. Tie: histories with "
+             "reopen, 2-3 instances interleaved in one process, and a cross-process scenario (the D1 witness) on the real client.",
+        design="7/C05", technique="Coq proof (Load invariant, refinement incl. Reopen) + multi-instance / cross-process correspondence run",
+        note="Other instances are modelled by their only influence, the sequence counter. Clean Close (pool drained). " + NOTE_COMMON),
+    "C14": dict(
+        text="Theorems (Coq): every content always belongs to a listed version or a queued cleaner job (C14_no_leak, invariant "
+             "preserved by every operation); once all transactions ended, after drain + one collection pass + drain, every key "
+             "holds exactly its newest committed version, every remaining content belongs to such a version, and those contents "
+             "are intact (C14_quiescent_disk_exact); the same after a clean reopen. Tie: fault-free histories driven to exact "
+             "quiescence (pool counters), then a walk of the storage roots (length+SHA-256 of every file) compared with the "
+             "model, the abstract machine, and directly with what GetKeys/Get return.",
+        design="7/C14", technique="Coq invariant proof (content liveness) + disk-walk correspondence run",
+        note="Fault-free histories without late writes (finding D7 leaks a file until restart). " + NOTE_COMMON),
     "C09": dict(
         text="Theorems (Coq): for every sequential history the outputs of all non-collector operations equal those of the history "
              "with every collection/drain removed (C09_gc_transparent); a collection pass and a drain keep the model related to "
